@@ -2,7 +2,7 @@ SPECIFICATION Spec
 CONSTANTS
   NameMask = 4095
   Family = "namesq"
-  MaxKeys = 2
+  MaxKeys = 3
   Defect = "none"
 INVARIANT OrderInv
 INVARIANT ShapeInv
